@@ -247,7 +247,7 @@ static string collapse(const string &t)
     return r.size() > 24 ? r.substr(0, 24) : r;
 }
 
-static void check_call(const Spec &d, double x, Verdict &vd, bool safety_only = false)
+static void check_call(const Spec &d, double x, Verdict &vd, bool safety_only = false /* = without the accuracy clause */)
 {
     Args a;
     string f = render(d, a);
@@ -272,8 +272,8 @@ static void check_call(const Spec &d, double x, Verdict &vd, bool safety_only = 
         return;
     }
     vd.shape = string(1, cv) + ":" + collapse(got.text);
-    if (!std::isfinite(x) || safety_only)
-        return; // shape and accuracy are stated for finite arguments (and decided for precisions 0..17) only
+    if (!std::isfinite(x))
+        return; // shape and accuracy are stated for finite arguments only
     {
         Out ref = run_ref(f, a);
         if (ref.text == got.text)
@@ -397,7 +397,7 @@ static void check_call(const Spec &d, double x, Verdict &vd, bool safety_only = 
         auto ref_exp = [&](double v) {
             if (v == 0)
                 return 0;
-            char b[64];
+            char b[512];
             snprintf(b, sizeof b, "%.*e", nsig - 1, fabs(v));
             const char *epos = strchr(b, 'e');
             return epos ? atoi(epos + 1) : 0;
@@ -515,6 +515,9 @@ static void check_call(const Spec &d, double x, Verdict &vd, bool safety_only = 
         return;
     }
 
+    if (safety_only)
+        return; // precision above 17: sign, padding, count and shape (number of digits, exponent form, %g style) are decided
+                // as for any precision; the VALUE of digits beyond what a double carries is outside the accuracy clause
     // ---- accuracy: parsed back, within half a unit of the last digit position ISO prescribes for the ARGUMENT
     // (10^-P for f, 10^(X-P) for e, 10^(X-P+1) for g, X as above) + 8 ulp of the argument
     long double y = strtold(((sg == '-' ? "-" : "") + tok).c_str(), nullptr);
@@ -604,14 +607,16 @@ static void flags_body()
 }
 
 // ------------------------------------------------------------------ (3) precisions beyond the 17 of the accuracy claim
-// The statement's safety clauses (terminates, stays inside its buffers, returns what it emitted) hold
-// for any precision; shape and accuracy are decided for the quantifier's precisions 0..17 only.
+// The statement's safety clauses (terminates, stays inside its buffers, returns what it emitted) and the shape
+// clause (sign, padding, exactly `precision` fraction digits for f / e / #g, exponent form, %g style) hold for any
+// precision; accuracy is decided for the quantifier's precisions 0..17 only (the engine completes a long precision
+// with zeros, so the values of digits beyond its internal limit stay unchecked).
 static void long_precisions_body()
 {
     static const double D[] = {0.0,     1.0,     -0.1,     0.3,   1.0 / 3, 2.5,     123456.789, 1e-5,    1e-30,    1e-45,   1e-100,
                                1e-300,  4.9e-324, DBL_MIN, 1e15,  1e22,    1e63,    1e64,       1e100,   -1e300,   DBL_MAX, 9.999999999999999e22,
                                INFINITY, NAN};
-    static const int PR[] = {18, 20, 39, 40, 41, 63, 64, 65, 66, 100, 330, 400};
+    static const int PR[] = {18, 20, 39, 40, 41, 63, 64, 65, 66, 100, 300, 330, 400};
     const int ND = sizeof D / sizeof D[0], NP = sizeof PR / sizeof PR[0];
     int unit = mc::choose(ND * 6);
     int pi = mc::choose(NP);
